@@ -46,6 +46,9 @@ def check(ctx, R):
         from ..engine import terms as _terms
         loop_rules(ctx, R, roles, _terms(ctx))       # a loop that can spin for ever (under a lock) makes close() block
         _reset_before_connect(ctx, R, roles, li)
+        # "a subsequent connect() to a healthy device succeeds": the handshake itself (same instances as C05)
+        from .c05 import _manager_connect
+        R.attempt(_manager_connect, ctx, R, roles, _terms(ctx))
         _census(ctx, R, roles)
         _exc(ctx, R, roles)
     _transport_close(ctx, R)
